@@ -11,4 +11,10 @@ require (
 	google.golang.org/protobuf v1.36.9
 )
 
+require (
+	golang.org/x/net v0.44.0 // indirect
+	golang.org/x/sys v0.36.0 // indirect
+	golang.org/x/text v0.29.0 // indirect
+)
+
 replace github.com/jhump/grpctunnel => /repo
